@@ -32,12 +32,37 @@ func drawBulk(t *rapid.T) (gen.TableSpec, *gen.Bulk) {
 	return gen.TableSpec{Cfg: cfg, Min: 5, Max: 5}, b
 }
 
+// drawBig: large blocks and records comparable in size to them, so that blocks end early
+// and are padded by many kilobytes (or, unaligned, follow each other at odd offsets).
+func drawBig(t *rapid.T) (gen.TableSpec, *gen.Bulk) {
+	bs := rapid.SampledFrom([]int{8192, 16384, 32768}).Draw(t, "bigBS")
+	cfg := gen.Cfg{BlockSize: uint32(bs), RestartInterval: rapid.SampledFrom([]int{0, 1, 3}).Draw(t, "bigRI"),
+		Unaligned: rapid.IntRange(0, 3).Draw(t, "bigUnaligned") == 3, Hash: rapid.IntRange(0, 2).Draw(t, "bigHash"),
+		SkipIndexObjects: rapid.Bool().Draw(t, "bigSkip")}
+	b := &gen.Bulk{}
+	n := rapid.IntRange(2, 9).Draw(t, "bigN")
+	for i := 0; i < n; i++ {
+		switch rapid.IntRange(0, 3).Draw(t, "bigKind") {
+		case 0:
+			b.Lens = append(b.Lens, 0)
+		case 1:
+			b.Lens = append(b.Lens, rapid.IntRange(1, 300).Draw(t, "bigSmall"))
+		default:
+			b.Lens = append(b.Lens, rapid.IntRange(bs/4, bs-120).Draw(t, "bigLen"))
+		}
+	}
+	return gen.TableSpec{Cfg: cfg, Min: 2, Max: 2}, b
+}
+
 func genC01(t *rapid.T) c01Case {
 	c := c01Case{}
 	c.Table = gen.DrawTable(t, gen.TableOpts{MaxRefs: 150, MaxLogs: 40, SmallBlocks: rapid.Bool().Draw(t, "small")})
 	c.ViaFile = rapid.IntRange(0, 7).Draw(t, "viaFile") == 0
 	if rapid.IntRange(0, 199).Draw(t, "bulk") == 77 {
 		c.Table, c.Bulk = drawBulk(t)
+	}
+	if rapid.IntRange(0, 49).Draw(t, "big") == 23 {
+		c.Table, c.Bulk = drawBig(t)
 	}
 	return c
 }
@@ -47,7 +72,8 @@ func propC01(c c01Case, o *Obs) error {
 	spec := c.Table
 	if c.Bulk != nil {
 		spec.Refs = c.Bulk.Expand(spec.Min)
-		o.Class("bulk-restart-cap")
+		o.ClassIf(len(c.Bulk.Lens) == 0, "bulk-restart-cap")
+		o.ClassIf(len(c.Bulk.Lens) > 0, "big-records-in-big-blocks")
 	}
 	data, st, rejected, err := WriteTable(spec)
 	if rejected {
@@ -94,7 +120,7 @@ func propC01(c c01Case, o *Obs) error {
 	if d := DiffLogs(logs, NormLogs(spec.Logs, spec.Cfg)); d != "" {
 		return Failf("C01/log-mismatch", "%s", d)
 	}
-	if c.Bulk != nil {
+	if c.Bulk != nil && len(c.Bulk.Lens) == 0 {
 		// seeks across the point where the block runs out of restart points
 		for _, i := range []int{0, 1, 65533, 65534, 65535, 65536, 65537, len(spec.Refs) - 1} {
 			if i >= len(spec.Refs) {
